@@ -3,6 +3,8 @@ package main
 import (
 	"fmt"
 	"go/types"
+	"math"
+	"strconv"
 	"strings"
 
 	"golang.org/x/tools/go/ssa"
@@ -119,6 +121,33 @@ func (e *Exec) freshVar(name string, s Sort) *Term {
 func (e *Exec) nondet(name string, kind string, s Sort) *Term {
 	n := e.nondetN[name]
 	e.nondetN[name] = n + 1
+	if e.fixed != nil {
+		l := e.fixed.Values[name]
+		var t *Term
+		if n < len(l) {
+			switch kind {
+			case "bool":
+				t = e.tt.Bool(l[n] == "1")
+			case "f64":
+				u, _ := strconv.ParseUint(l[n], 16, 64)
+				t = e.tt.FPConst(math.Float64frombits(u), FP64Sort)
+			default:
+				u, _ := strconv.ParseUint(l[n], 10, 64)
+				t = e.tt.BVConst(u, s.W)
+			}
+		} else {
+			switch kind {
+			case "bool":
+				t = e.tt.Bool(false)
+			case "f64":
+				t = e.tt.FPConst(0, FP64Sort)
+			default:
+				t = e.tt.BVConst(0, s.W)
+			}
+		}
+		e.pathVars = append(e.pathVars, nondetRec{name: name, kind: kind, t: t})
+		return t
+	}
 	t := e.freshVar(fmt.Sprintf("%s!%d", name, n), s)
 	e.pathVars = append(e.pathVars, nondetRec{name: name, kind: kind, t: t})
 	return t
@@ -176,7 +205,14 @@ func init() {
 		if n <= 0 {
 			panic(pathEnd{"infeasible", "Choose(0)"})
 		}
-		k := e.Choose(n)
+		var k int
+		if e.fixed != nil {
+			if len(e.choices) < len(e.fixed.Choices) {
+				k = e.fixed.Choices[len(e.choices)]
+			}
+		} else {
+			k = e.Choose(n)
+		}
 		e.choices = append(e.choices, k)
 		return e.tt.BVConst(uint64(k), 64)
 	}
